@@ -446,3 +446,64 @@ pub fn exchange_key(ida: &[u8], idb: &[u8], x: &Exch, klen: usize) -> Vec<u8> {
     z.extend_from_slice(&f12_bytes(&x.g3));
     kdf(&z, klen)
 }
+
+/// square root in Fp by Tonelli-Shanks (p = 1 mod 4 for the SM9 prime); None for a non-residue
+pub fn sqrt_fp(a: &BigUint) -> Option<BigUint> {
+    use num_traits::{One, Zero};
+    let p = &params().p;
+    let a = a % p;
+    if a.is_zero() {
+        return Some(BigUint::zero());
+    }
+    let one = BigUint::one();
+    let two = BigUint::from(2u32);
+    if a.modpow(&((p - &one) / &two), p) != one {
+        return None;
+    }
+    // p - 1 = q 2^s
+    let mut q = p - &one;
+    let mut s = 0u32;
+    while (&q % &two).is_zero() {
+        q /= &two;
+        s += 1;
+    }
+    let mut z = two.clone();
+    while z.modpow(&((p - &one) / &two), p) == one {
+        z += &one;
+    }
+    let mut m = s;
+    let mut c = z.modpow(&q, p);
+    let mut t = a.modpow(&q, p);
+    let mut r = a.modpow(&((&q + &one) / &two), p);
+    while t != one {
+        let mut i = 0u32;
+        let mut tt = t.clone();
+        while tt != one {
+            tt = (&tt * &tt) % p;
+            i += 1;
+        }
+        let b = c.modpow(&(BigUint::one() << (m - i - 1)), p);
+        m = i;
+        c = (&b * &b) % p;
+        t = (&t * &c) % p;
+        r = (&r * &b) % p;
+    }
+    if (&r * &r) % p == a {
+        Some(r)
+    } else {
+        None
+    }
+}
+
+/// cube root in Fp (p = 4 mod 9 for the SM9 prime: a^((2p+1)/9) when a is a cubic residue); None otherwise
+pub fn cbrt_fp(a: &BigUint) -> Option<BigUint> {
+    let p = &params().p;
+    let a = a % p;
+    let e = (p * 2u32 + 1u32) / 9u32;
+    let x = a.modpow(&e, p);
+    if (&x * &x * &x) % p == a {
+        Some(x)
+    } else {
+        None
+    }
+}
